@@ -159,7 +159,11 @@ Definition obs_roundtrip (tbl : list (list N * list N))
     let '(t, fin) := drain deser_raw (decompress_tbl tbl) (N.to_nat fuel) script (mkB 0) d0 in
     Nd [Nd (map frame_len_obs frames);
         Nd (map pres_obs2 t);
-        obool (match fin with Some _ => true | None => false end)].
+        obool (match fin with Some _ => true | None => false end);
+        (* ghost of the explicit-source run: polls of the message source after it answered None
+           (c01_source_never_polled_after_end: 0), tied to the harness's strict source *)
+        Nn (Encoder.s_after_end (snd (Encoder.run_body_src (list N) Encoder.cenc Encoder.ser_raw
+                                        (Encoder.compress_tbl tbl) c r (src_of src) 2)))].
 
 (* ---- Body::is_end_stream of EncodeBody (what hyper asks before it polls a body again) ------- *)
 Definition is_end_stream (b : Encoder.body_state) : bool := Encoder.b_end b.
